@@ -25,6 +25,8 @@ func stdFamilies(tier string) []family {
 			famPCastle(1),
 			famPEP([]int8{space.Q, space.R, space.B, space.N}, true, "PEP(all)"),
 			famPPromo(),
+			famPPromo2(true),
+			famPBlock(),
 			famPDisc(),
 		}
 	}
@@ -33,6 +35,7 @@ func stdFamilies(tier string) []family {
 		famPCastle(0),
 		famPEP([]int8{space.R}, false, "PEP(extra=rook)"),
 		famPPromo(),
+		famPBlock(),
 	}
 }
 
